@@ -36,6 +36,9 @@ var dilMsgLens = []int{0, 1, 7, 31, 32, 33, 135, 136, 137, 1000}
 
 func dilMsg(rng *rt.Rand, i int) []byte {
 	l := dilMsgLens[i%len(dilMsgLens)]
+	if rng.Intn(3) == 0 { // any length up to a few hash blocks, so that length-dependent paths are not missed
+		l = rng.Intn(700)
+	}
 	switch (i / len(dilMsgLens)) % 4 {
 	case 1:
 		return make([]byte, l)
@@ -83,6 +86,12 @@ func attemptBoundaries(a dilref.Attempt) (kinds []string) {
 	}
 	if a.Exit == "hint" && a.Weight == dilOmega+1 {
 		kinds = append(kinds, "hint=76(reject)")
+	}
+	if a.Exit == "ok" && a.CornerW1Zero > 0 {
+		kinds = append(kinds, "hintcorner-w1=0")
+	}
+	if a.Exit == "ok" && a.CornerW1NonZero > 0 {
+		kinds = append(kinds, "hintcorner-w1!=0")
 	}
 	return
 }
